@@ -1117,6 +1117,10 @@ def _parse_length_prefixed(interp, args, kwargs):
     cls, inp = args[0], args[1]
     interp.emit("io", method="parse_length_prefixed", recv=inp)
     if isinstance(inp, ExtObj) and inp.kind in ("io.stream", "io.BufferedReader"):
+        if inp.kind == "io.BufferedReader":
+            if inp.attrs.get("detached"):
+                raise interp.exc("ValueError", "raw stream has been detached")
+            inp.attrs["did_read"] = True
         src = stream_root(inp)
         offset = src.attrs.get("pos", 0)
         if offset != src.attrs.get("start", 0):
@@ -2569,7 +2573,16 @@ def _io_method(interp, o: ExtObj, name: str, args: list, kwargs: dict) -> Any:
             if is_wrapper:
                 return root.attrs["seekable"]
             return o.attrs["seekable"]
+        if name == "detach" and is_wrapper:
+            # the wrapper is dropped: whatever it had read ahead from the object below is gone with it
+            interp.emit("io", method="detach", recv=o, n=None, exact=True, wrapper=True, raw_after_wrap=False, had_reads=bool(o.attrs.get("did_read")))
+            o.attrs["detached"] = True
+            return o.attrs["raw"]
+        if is_wrapper and o.attrs.get("detached") and name in ("read", "peek", "read1", "readinto", "seek", "tell", "seekable", "readable"):
+            raise interp.exc("ValueError", "raw stream has been detached")
         if name in ("read", "peek", "read1", "readinto"):
+            if is_wrapper:
+                o.attrs["did_read"] = True
             n = args[0] if args else kwargs.get("size", -1)
             below = o.attrs["raw"] if is_wrapper else None
             below_buffered = isinstance(below, ExtObj) and (below.kind == "io.BufferedReader" or below.attrs.get("buffered", False))
